@@ -78,22 +78,75 @@ def TABLES():
     return out
 
 
+def _func(file, qual):
+    import os
+    tree = ast.parse(open(os.path.join(_ex.REPO, file)).read())
+    return _ex.find_func(tree, qual)
+
+
+def _args(f, skip_self=True):
+    a = [x.arg for x in f.args.args]
+    return a[1:] if skip_self and a and a[0] == 'self' else a
+
+
+def _roles_record_output():
+    """local names of record_output by the role they play (so that renaming a local is harmless)"""
+    r = {'eof': 'eof', 'data': 'data', 'after': 'after', 'index': 'index', 'token': 'token', 'tokenlen': 'tokenlen'}
+    try:
+        f = _func('supervisor/dispatchers.py', 'POutputDispatcher.record_output')
+        a = _args(f)
+        if a: r['eof'] = a[0]
+        for n in ast.walk(f):
+            if not isinstance(n, ast.Assign) or len(n.targets) != 1:
+                continue
+            t, v = n.targets[0], n.value
+            if isinstance(v, ast.Call) and isinstance(v.func, ast.Attribute) and v.func.attr == 'split' \
+                    and isinstance(t, ast.Tuple) and len(t.elts) == 2 and isinstance(v.func.value, ast.Name):
+                r['after'] = t.elts[1].id; r['data'] = v.func.value.id
+            if isinstance(v, ast.Call) and isinstance(v.func, ast.Name) and v.func.id == 'find_prefix_at_end' and isinstance(t, ast.Name):
+                r['index'] = t.id
+            if isinstance(t, ast.Tuple) and len(t.elts) == 2 and ast.unparse(v) == 'self.endtoken_data':
+                r['token'], r['tokenlen'] = t.elts[0].id, t.elts[1].id
+    except Exception:
+        pass
+    return r
+
+
+def _first_targets(file, qual, k):
+    try:
+        f = _func(file, qual)
+        names = [st.targets[0].id for st in f.body if isinstance(st, ast.Assign) and isinstance(st.targets[0], ast.Name)]
+        return _args(f), names[:k]
+    except Exception:
+        return [], []
+
+
+_r = _roles_record_output()
 _ro_params = '(capMax : Int) (mode eof : Bool) (buf btok etok data after : List UInt8) (index : Int)'
 _ro_vars = {
     # `self.capturelog is None`: the capture logger exists iff <channel>_capture_maxbytes is non-zero
     # (POutputDispatcher._init_capturelog); the model encodes "no capture logger" as capMax = 0
     'self.capturelog': ('capMax', 'int'),
     'self.capturemode': ('mode', 'bool'),
-    'eof': ('eof', 'bool'),
+    _r['eof']: ('eof', 'bool'),
     'self.output_buffer': ('buf', 'bytes'),
     'self.endtoken_data': ('etok', 'bytes'),
     'self.begintoken_data': ('btok', 'bytes'),
-    'token': ('(if mode then etok else btok)', 'bytes'),
-    'tokenlen': ('((if mode then etok else btok).length : Int)', 'int'),
-    'data': ('data', 'bytes'),
-    'after': ('after', 'bytes'),
-    'index': ('index', 'int'),
+    _r['token']: ('(if mode then etok else btok)', 'bytes'),
+    _r['tokenlen']: ('((if mode then etok else btok).length : Int)', 'int'),
+    _r['data']: ('data', 'bytes'),
+    _r['after']: ('after', 'bytes'),
+    _r['index']: ('index', 'int'),
 }
+_log_arg = (_first_targets('supervisor/dispatchers.py', 'POutputDispatcher._log', 0)[0] or ['data'])[0]
+_hre_data = (_first_targets('supervisor/dispatchers.py', 'POutputDispatcher.handle_read_event', 1)[1] or ['data'])[0]
+_fp_args, _fp_loc = _first_targets('supervisor/medusa/asynchat_25.py', 'find_prefix_at_end', 1)
+_fp_args = _fp_args if len(_fp_args) == 2 else ['haystack', 'needle']
+_fp_l = (_fp_loc or ['l'])[0]
+_bw_arg = (_first_targets('supervisor/loggers.py', 'BoundIO.write', 0)[0] or ['b'])[0]
+_st_args, _st_loc = _first_targets('supervisor/dispatchers.py', 'stripEscapes', 3)
+_st_s = (_st_args or ['s'])[0]
+_st_loc = _st_loc if len(_st_loc) == 3 else ['result', 'show', 'i']
 
 SITES = [
     PySite('supervisor/dispatchers.py', 'POutputDispatcher.record_output', 'record_output', _ro_params, _ro_vars),
@@ -102,23 +155,23 @@ SITES = [
            {'self.capturelog': ('capMax', 'int'), 'self.capturemode': ('mode', 'bool')}),
     PySite('supervisor/dispatchers.py', 'POutputDispatcher._log', 'log',
            '(data : List UInt8) (strip childlog mainlog mode isStdout outEv errEv : Bool)',
-           {'data': ('data', 'bytes'), 'config.options.strip_ansi': ('strip', 'bool'),
+           {_log_arg: ('data', 'bytes'), 'config.options.strip_ansi': ('strip', 'bool'),
             'self.childlog': ('childlog', 'bool'), 'self.log_to_mainlog': ('mainlog', 'bool'),
             'self.capturemode': ('mode', 'bool'), "self.channel == 'stdout'": ('isStdout', 'bool'),
             'self.stdout_events_enabled': ('outEv', 'bool'), 'self.stderr_events_enabled': ('errEv', 'bool')}),
     PySite('supervisor/dispatchers.py', 'POutputDispatcher.handle_read_event', 'hre',
            '(buf data : List UInt8)',
-           {'self.output_buffer': ('buf', 'bytes'), 'data': ('data', 'bytes')},
+           {'self.output_buffer': ('buf', 'bytes'), _hre_data: ('data', 'bytes')},
            calls=('self.record_output',)),
     PySite('supervisor/medusa/asynchat_25.py', 'find_prefix_at_end', 'fpae',
            '(haystack needle : List UInt8) (l : Int)',
-           {'haystack': ('haystack', 'bytes'), 'needle': ('needle', 'bytes'), 'l': ('l', 'int')}),
+           {_fp_args[0]: ('haystack', 'bytes'), _fp_args[1]: ('needle', 'bytes'), _fp_l: ('l', 'int')}),
     PySite('supervisor/loggers.py', 'BoundIO.write', 'bound_write',
            '(buf b : List UInt8) (maxbytes : Int)',
-           {'self.buf': ('buf', 'bytes'), 'b': ('b', 'bytes'), 'self.maxbytes': ('maxbytes', 'int')}),
+           {'self.buf': ('buf', 'bytes'), _bw_arg: ('b', 'bytes'), 'self.maxbytes': ('maxbytes', 'int')}),
     PySite('supervisor/dispatchers.py', 'stripEscapes', 'strip',
            '(s result : List UInt8) (sh i : Int)',
-           {'s': ('s', 'bytes'), 'result': ('result', 'bytes'), 'show': ('sh', 'int'), 'i': ('i', 'int')},
+           {_st_s: ('s', 'bytes'), _st_loc[0]: ('result', 'bytes'), _st_loc[1]: ('sh', 'int'), _st_loc[2]: ('i', 'int')},
            consts={'ANSI_TERMINATORS': 'ANSI_TERMINATORS', 'ANSI_ESCAPE_BEGIN': 'ANSI_ESCAPE_BEGIN'},
            const_types={'ANSI_ESCAPE_BEGIN': 'bytes', 'ANSI_TERMINATORS': 'list'}),
 ]
